@@ -190,10 +190,12 @@ def run(pid: str, tier: str, seed: int, selftest=False, replay=None) -> int:
     prev_size_text = None
     for k in range(150 if quick else 3000):
         rank = rng.choice([1, 2, 2, 3])
-        el, w = rng.choice([("i8", 1), ("i16", 2), ("i32", 4), ("i64", 8)])
+        # (element type, byte pitch): widths that are not whole bytes are addressed with the rounded-up pitch everywhere in the compiler
+        el, w = rng.choice([("i8", 1), ("i16", 2), ("i32", 4), ("i64", 8), ("i8", 1), ("i32", 4), ("i1", 1), ("i4", 1), ("i12", 2), ("i20", 3)])
+        plain = rng.random() < 0.2          # no layout attribute: the default row-major layout of a static shape
         # any subset of the dimensions has a dynamic outermost bound (static steps: fixed pitch); every dynamic dimension gets its own
         # run-time size, the steps are laid out for exactly those sizes (plus gaps), so the run-time layout is a valid one
-        dyn_dims = [d for d in range(rank) if rng.random() < 0.3]
+        dyn_dims = [] if plain else [d for d in range(rank) if rng.random() < 0.3]
         order = list(range(rank))
         rng.shuffle(order)
         levels = {}
@@ -224,6 +226,13 @@ def run(pid: str, tier: str, seed: int, selftest=False, replay=None) -> int:
         shp = "x".join("?" if s is None else str(s) for s in shape)
         lay = ", ".join(dims_txt) + (f", offset: {off}" if off else "")
         mt = f'memref<{shp}x{el}, #tsl.tsl<{lay}>, "L1">'
+        if plain:
+            st, acc = [0] * rank, 1
+            for d in reversed(range(rank)):
+                st[d] = acc
+                acc *= sizes[d]
+            L = {"dims": [[{"b": sizes[d], "s": st[d]}] for d in range(rank)], "off": 0}
+            mt = f'memref<{shp}x{el}, "L1">'
         fargs = ", ".join(f"%n{d} : index" for d in dyn_dims)
         adds = "\n".join(f"    %nn{d} = arith.addi %n{d}, %z : index" for d in dyn_dims)
         dynarg = "(" + ", ".join(f"%nn{d}" for d in dyn_dims) + ")"
